@@ -6,7 +6,8 @@ use crate::pool::*;
 use crate::shim;
 use std::collections::{BTreeMap, HashSet};
 use std::sync::Mutex;
-use std::sync::atomic::{AtomicBool, AtomicU64, AtomicUsize, Ordering};
+use crate::Counter64 as AtomicU64;
+use std::sync::atomic::{AtomicBool, AtomicUsize, Ordering};
 use std::time::Instant;
 
 pub type OpId = u16;
